@@ -61,6 +61,7 @@ class V:
 
 CLEAN = V("CLEAN")
 UNORD = V("UNORD")
+MAPSET = V("MAPSET")        # a mapping whose VALUES are sets (collections.defaultdict(set)): its items are reached in insertion order, each value is UNORD
 
 
 def TAINT(origins):
@@ -76,6 +77,8 @@ def join(a, b):
         return TAINT((a.origins if a.kind == "TAINT" else frozenset()) | (b.origins if b.kind == "TAINT" else frozenset()))
     if a.kind == "UNORD" or b.kind == "UNORD":
         return UNORD
+    if a.kind == "MAPSET" or b.kind == "MAPSET":
+        return MAPSET
     return CLEAN
 
 
@@ -148,6 +151,7 @@ class Interp:
     def __init__(self, pkg, fn):
         self.pkg, self.fn = pkg, fn
         self.ctx = []            # stack of order contexts: frozenset of origins of the loops we are inside
+        self.rebound = []        # per order-dependent loop: the names re-bound in its body
         self.ret = CLEAN
         self.flows = {}
         self.changed_params = False
@@ -287,6 +291,9 @@ class Interp:
 
     def e_Subscript(self, e, env):
         v = self.ev(e.value, env)
+        if v.kind == "MAPSET":
+            self.ev(e.slice, env)
+            return UNORD
         s = self.ev(e.slice, env)
         out = CLEAN
         if v.kind == "TAINT":
@@ -314,6 +321,8 @@ class Interp:
         # set constructors and order-forgetting consumers
         if name in SET_MAKERS:
             return UNORD
+        if name in ("collections.defaultdict", "defaultdict") and len(e.args) == 1 and dotted(e.args[0]) in ("set", "frozenset"):
+            return MAPSET
         if name in FORGET or name == "sum" and len(e.args) == 1:
             if name in ("sorted", "min", "max") and "key" in kws and any(v.kind == "UNORD" or any(not o.startswith("@") for o in v.origins) for v in args):
                 self.fn.key_sites.append((e.lineno, dotted(e)[:90]))
@@ -427,10 +436,10 @@ class Interp:
     def assign(self, target, v, env, node):
         ctx = self.ctx_origins()
         if isinstance(target, ast.Name):
-            if ctx and v.kind != "UNORD" and not self.is_constant_like(getattr(node, "value", None)):
-                # a variable re-bound inside an order-dependent loop keeps the value of the LAST (or, with break, some) iteration
-                self.note(ctx, node, f"`{target.id}` re-bound in the loop")
-                v = join(v, TAINT(ctx))
+            if ctx and v.kind != "UNORD" and not self.is_constant_like(getattr(node, "value", None)) and self.rebound:
+                # a variable re-bound inside an order-dependent loop keeps the value of the LAST (or, with break, some) iteration: what it holds
+                # AFTER the loop depends on the order (inside one iteration it is a function of the current element)
+                self.rebound[-1].add((target.id, node))
             env[target.id] = v
         elif isinstance(target, (ast.Tuple, ast.List)):
             for t in target.elts:
@@ -558,13 +567,21 @@ class Interp:
         for n in ast.walk(target):
             if isinstance(n, ast.Name):
                 env[n.id] = CLEAN
+        if isinstance(it_expr, ast.Call) and isinstance(it_expr.func, ast.Attribute) and it_expr.func.attr in ("items", "values") and self.ev(it_expr.func.value, env).kind == "MAPSET":
+            tv = target.elts[1] if it_expr.func.attr == "items" and isinstance(target, ast.Tuple) and len(target.elts) == 2 else target if it_expr.func.attr == "values" else None
+            if isinstance(tv, ast.Name):
+                env[tv.id] = UNORD
         if o:
             self.ctx.append(o)
+            self.rebound.append(set())
         # two rounds so that values assigned late in the body reach its start
         self.block(body, env)
         self.block(body, env)
         if o:
             self.ctx.pop()
+            for name, where in sorted(self.rebound.pop(), key=lambda t: t[0]):
+                self.note(o, where, f"`{name}` re-bound in the loop (its value after the loop is that of the last iteration)")
+                env[name] = join(env.get(name, CLEAN), TAINT(o))
             has_break = any(isinstance(n, ast.Break) for st in body for n in ast.walk(st))
             if has_break:
                 self.note(o, node, "loop left by break (which element ends it depends on the order)")
@@ -601,8 +618,13 @@ class Interp:
         self.block(s.orelse, e2)
         if pushed:
             self.ctx.pop()
-        for k in set(e1) | set(e2):
-            env[k] = join(e1.get(k, CLEAN), e2.get(k, CLEAN))
+        # a branch that always leaves (continue / break / return / raise) does not reach the statements after the `if`
+        live = [e for e, blk in ((e1, s.body), (e2, s.orelse)) if not (blk and isinstance(blk[-1], (ast.Continue, ast.Break, ast.Return, ast.Raise)))] or [e1, e2]
+        for k in set().union(*[set(e) for e in live]):
+            v = None
+            for e in live:
+                v = join(v, e.get(k, CLEAN))
+            env[k] = v
 
     def s_Try(self, s, env):
         self.block(s.body, env)
